@@ -52,17 +52,18 @@ type Conn struct {
 	ID  int
 	clk *Clock
 
-	mu           sync.Mutex
-	cond         *sync.Cond
-	in           []byte
-	clientClosed bool
-	closed       bool
-	deadline     time.Duration // virtual instant, 0 = none
-	armed        bool
-	wdeadline    time.Duration // write deadline (virtual instant), as net.Conn has it: a Write after it fails at once
-	warmed       bool
-	stalled      bool // the client has stopped reading: a Write blocks until it reads again, the write deadline passes or the connection closes
-	reading      bool
+	mu             sync.Mutex
+	cond           *sync.Cond
+	in             []byte
+	clientClosed   bool
+	closed         bool
+	deadline       time.Duration // virtual instant, 0 = none
+	armed          bool
+	wdeadline      time.Duration // write deadline (virtual instant), as net.Conn has it: a Write after it fails at once
+	warmed         bool
+	blockedWriters int
+	stalled        bool // the client has stopped reading: a Write blocks until it reads again, the write deadline passes or the connection closes
+	reading        bool
 
 	// callbacks, invoked without c.mu held unless stated
 	OnWrite    func(b []byte) // bytes written by the broker
@@ -132,7 +133,9 @@ func (k *Conn) Write(p []byte) (int, error) {
 			break
 		}
 		// a client that does not read: the write blocks (socket buffers are taken to be full) until something changes
+		k.blockedWriters++
 		k.cond.Wait()
+		k.blockedWriters--
 		if k.closed {
 			k.mu.Unlock()
 			return 0, io.ErrClosedPipe
@@ -204,6 +207,13 @@ func (k *Conn) SetReadDeadline(t time.Time) error  { return k.arm(t) }
 func (k *Conn) SetWriteDeadline(t time.Time) error { k.armWrite(t); return nil }
 
 // ---- client side
+
+// WriteBlocked reports whether a Write of the broker is blocked on this connection right now.
+func (k *Conn) WriteBlocked() bool {
+	k.mu.Lock()
+	defer k.mu.Unlock()
+	return k.blockedWriters > 0
+}
 
 // SetStalled makes the client stop (or resume) reading: while it is stalled the broker's writes block, as they do on a
 // connection whose peer does not drain its socket, and fail when the write deadline passes on the virtual clock.
